@@ -376,17 +376,22 @@ def _exec_cli_refusal(segno, sc, res, viols, counters):
     lib_kw = opts.cli_equivalent_make_kw(mkw, sc['seq'])
     lib_exc = None
     try:
-        (segno.make_sequence if sc['seq'] else segno.make)(content, **lib_kw)
+        with sched.StepGuard(CALL_BUDGET):
+            (segno.make_sequence if sc['seq'] else segno.make)(content, **lib_kw)
     except ValueError as ex:
         lib_exc = ex
+    except sched.StepBudgetExceeded:
+        viols.append(_viol('c14.liveness', 'make(%r, %s) did not return or raise within %d steps' % (content if len(str(content)) < 40 else '<long>', _kwstr(lib_kw), CALL_BUDGET)))
+        res['digest'] = core.digest(['loop'])
+        return
     except Exception as ex:
         if type(ex) is LookupError:
             lib_exc = ex
         else:
-          viols.append(_viol('c14.exc', '%s(%r, %s) raised %s: %s' % ('make_sequence' if sc['seq'] else 'make', content if len(str(content)) < 40 else '<%d chars>' % len(content),
-                                                                     _kwstr(lib_kw), type(ex).__name__, ex), call=[sc['seq'], sc['content'], sc['mkw']]))
-          res['digest'] = core.digest(['exc', type(ex).__name__])
-          return
+            viols.append(_viol('c14.exc', '%s(%r, %s) raised %s: %s' % ('make_sequence' if sc['seq'] else 'make', content if len(str(content)) < 40 else '<%d chars>' % len(content),
+                                                                       _kwstr(lib_kw), type(ex).__name__, ex), call=[sc['seq'], sc['content'], sc['mkw']]))
+            res['digest'] = core.digest(['exc', type(ex).__name__])
+            return
     w, pr = _cli_once(argv, sc, [])
     res['digest'] = core.digest([pr['status'], pr['stderr'][:200], pr['traceback']])
     res['sample'] = {'mode': 'cli_refusal', 'argv': argv, 'status': pr['status'], 'stderr': pr['stderr'][:120]}
